@@ -403,8 +403,21 @@ func goClause(text string, params []string) (string, error) {
 // Returns the replay file and whether the violation was reproduced.
 func tryReplay(dir string, o *Obligation, r *checkRun) (string, bool) {
 	stub := func(why string) (string, bool) { return writeReplayStub(dir, o, why), false }
+	relaxed := false
+	smtText := o.SMT
 	if o.Result != "sat" {
-		return stub("obligation not discharged; the solver gave no model (" + o.Result + ")")
+		// No model: the quantified assumptions defeated the solver. Search for a candidate input
+		// in a relaxed query (quantified assumptions dropped). A candidate proves nothing by
+		// itself: it counts only if the real code, run on it with every precondition checked on
+		// the concrete input, violates the clause.
+		if o.replay == nil || o.SMT == "" || (o.Result != "timeout" && o.Result != "unknown") {
+			return stub("obligation not discharged; the solver gave no model (" + o.Result + ")")
+		}
+		rs, ok := relaxQuery(o.SMT)
+		if !ok {
+			return stub("obligation not discharged; the solver gave no model (" + o.Result + "); relaxed search found no candidate")
+		}
+		smtText, relaxed = rs, true
 	}
 	ri := o.replay
 	if ri == nil || ri.fv == nil || ri.fv.fd == nil {
@@ -414,7 +427,7 @@ func tryReplay(dir string, o *Obligation, r *checkRun) (string, bool) {
 	if fv.spec.Kind == SKLemma {
 		return stub("lemma over specification functions: no executable to replay")
 	}
-	q := &modelQuery{smt: o.SMT, cache: map[string]string{}}
+	q := &modelQuery{smt: smtText, cache: map[string]string{}}
 	pkg := fv.fd.pkg
 	pkgNames := pkgImportNames(pkg)
 	mk := func(prefix string) *goBuilder {
@@ -537,6 +550,23 @@ func tryReplay(dir string, o *Obligation, r *checkRun) (string, bool) {
 			fmt.Fprintf(&src, "\t\t%s %s\n", rn, cur.typeStr(sig.Results().At(i).Type()))
 		}
 		fmt.Fprintf(&src, "\t)\n")
+	}
+	if relaxed {
+		var pn []string
+		for _, p := range fv.spec.Params {
+			pn = append(pn, p.Name)
+		}
+		if fv.spec.Recv != nil {
+			pn = append(pn, fv.spec.Recv.Name)
+		}
+		for _, rc := range fv.spec.Requires {
+			rg, err := goClause(rc.Text, nil)
+			if err != nil || usesUninterpreted(fv, rg) {
+				return stub("relaxed candidate: a precondition cannot be checked on concrete inputs: " + rc.Text)
+			}
+			fmt.Fprintf(&src, "\tif !func() (ok bool) { defer func() { if recover() != nil { ok = false } }(); return %s }() {\n\t\trpT.Skipf(\"VERIF-INCONCLUSIVE: candidate input violates the precondition %%s\", %q)\n\t}\n", rg, rc.Text)
+		}
+		_ = pn
 	}
 	src.WriteString("\tpanicked := func() (__pv any) {\n\t\tdefer func() { __pv = recover() }()\n")
 	if len(resNames) > 0 {
@@ -707,3 +737,43 @@ func cmdReplay(path string) int {
 }
 
 var _ = token.NoPos
+
+// relaxQuery drops the quantified assumptions of a query (every top-level assert except the last
+// one - the negated goal - that contains a quantifier) and asks for a model within a few seconds.
+func relaxQuery(smt string) (string, bool) {
+	lines := strings.Split(smt, "\n")
+	lastAssert := -1
+	for i, l := range lines {
+		if strings.HasPrefix(l, "(assert ") {
+			lastAssert = i
+		}
+	}
+	var out []string
+	for i, l := range lines {
+		if i != lastAssert && strings.HasPrefix(l, "(assert ") && (strings.Contains(l, "(forall ") || strings.Contains(l, "(exists ")) {
+			continue
+		}
+		out = append(out, l)
+	}
+	text := strings.Join(out, "\n")
+	f, err := os.CreateTemp("", "govc-relax-*.smt2")
+	if err != nil {
+		return "", false
+	}
+	defer os.Remove(f.Name())
+	f.WriteString(text)
+	f.Close()
+	cmd := exec.Command("z3-new", "-T:5", f.Name())
+	var buf bytes.Buffer
+	cmd.Stdout = &buf
+	cmd.Run()
+	ls := strings.Split(strings.TrimSpace(buf.String()), "\n")
+	for _, l := range ls {
+		l = strings.TrimSpace(l)
+		if strings.HasPrefix(l, "WARNING") {
+			continue
+		}
+		return text, l == "sat"
+	}
+	return "", false
+}
